@@ -48,7 +48,7 @@ CONF = {
                 big=[("kinds3", 400, 4000), ("big", 40, 600)], enum=True),
     "C06": dict(prefixes=("C06.",), builds=("pure",),
                 model=[("ctx", 400, 4000), ("ctxsync", 300, 3000), ("ctxfaults", 300, 3000), ("nonasync", 300, 3000), ("nonasyncfaults", 400, 4000), ("kill", 400, 4000),
-                       ("override", 150, 1500), ("overridenonasync", 150, 1500), ("timer", 250, 2500), ("timersync", 150, 1500), ("timerfaults", 150, 1500)],
+                       ("override", 150, 1500), ("overridenonasync", 150, 1500), ("ctxnonlifo", 250, 2500), ("timer", 250, 2500), ("timersync", 150, 1500), ("timerfaults", 150, 1500)],
                 big=[("ctxsync", 300, 3000), ("nonasync", 200, 2000)]),
     "C07": dict(prefixes=("C07.",), builds=("pure",),
                 model=[("override", 400, 5000), ("overridesync", 300, 3500), ("overridefaults", 300, 3500), ("ctx", 100, 1500),
